@@ -101,6 +101,8 @@ def run(ctx):
 
     # ------------------------------------------------------------------ R07.2
     r = ctx.rule("R07.2", "Element operations edit the documented place: prepend -> after the start tag (front), append -> before the end tag (back), after -> after the end tag or, for void elements, after the start tag (front), set_inner_content/replace/remove/remove_and_keep_content as documented; content operations are no-ops on elements that cannot have content", "E-AST", floor=9)
+    from .c04 import clause_stack_directive
+    clause_stack_directive(r, idx)
     from .c16 import clause_void_list
     clause_void_list(r, idx)
     def one(name):
